@@ -14,7 +14,7 @@ CHECKS = {
             "stateless DFS over thread schedules of the real Connection._send at source-line granularity with a state cache (2 threads: all interleavings; 3 threads: preemption-bounded), oracle on a recording transport",
             "All interleavings (line granularity inside _send and at every transport write) of 2 sender threads x 1-3 messages, "
             "with and without a re-entrant send from inside the transport write, are explored exhaustively on the real code; "
-            "3 threads with a preemption bound. Oracle: every message exactly once, contiguous, per-thread FIFO, queue empty, no deadlock.",
+            "3 threads with a preemption bound; one variant in which a sender's message is dumpable but unencodable (it must be refused in its own thread only). Oracle: every message exactly once, contiguous, per-thread FIFO, queue empty, no deadlock.",
             "C-level atomicity of list.append/pop and the try-lock under the GIL; scheduling points at source lines of _send (opcodes in thorough); sim lock replaces threading.Lock",
             "E1+E2", "DESIGN.md#c12"),
     "C13": ("model_checking",
@@ -42,13 +42,13 @@ CHECKS = {
             "All histories over {schedule the reply (value/exception) after d, clock tick, add_callback (flat and re-entrant), ready/error/expired, wait, value, serve one frame, "
             "unrelated request with a slow handler, stray reply, set_expiry} for every creation mode (async_request, timed, sync_request) and timeout in {None, unset, -1, 0, 1, 2}; "
             "the search reaches closure (no frontier left) below the depth bound of 9 (quick) / 11 (thorough) events for the bounded alphabet (1 / 2 unrelated requests and expiry changes); "
-            "oracle: final outcome, exact virtual time of every return/raise (later only while the waiter runs a handler), callbacks exactly once in order, late reply discarded.",
+            "oracle: final outcome, exact virtual time of every return/raise (later only while the waiter runs a handler), callbacks exactly once in order, late reply discarded; synchronous requests for every (timeout, arrival, value/exception) on connections that are 0 / 0.75 / 5 seconds old.",
             "virtual time (computation is instantaneous); ties and 'arrived before expiry but first looked at after it' accept both outcomes; negative timeouts: finality and callbacks only; the expiry is changed only while the result is pending; two threads sharing the connection are C13/C14's subject",
             "E1+E3", "DESIGN.md#c15"),
     "C04": ("exploration",
             "exhaustive enumeration of a value grammar (encode side) and of all short byte strings / tag-class strings / seed mutations (decode side) against the real brine module, with an audit-hook monitor",
             "Every grammar value (all wire-form length classes, nesting, every non-dumpable kind) is checked for dumpable/dump/load agreement with bit-exact comparison; "
-            "after every earlier call (each grammar value, successful or refused half-way through a container) 21 probes must still encode to the bytes taken before anything else was encoded (the serializer has no memory); "
+            "after every earlier call (each grammar value, successful or refused half-way through a container) 21 probes must still encode to the bytes taken before anything else was encoded (the serializer has no memory); verdicts belong to values, not addresses (a container is judged, freed and one of the same size with the opposite verdict created at the same address, sizes 20-300); "
             "ALL byte strings up to length 2 (quick) or 3 (thorough), all tag-class strings up to length 4/5 and every truncation/substitution of seed encodings are decoded under an audit hook.",
             "values outside the grammar and byte strings longer than the enumerated classes are not covered; the audit hook sees CPython import/exec/compile/open/pickle events",
             "E5", "DESIGN.md#c04"),
@@ -75,33 +75,33 @@ CHECKS = {
             "exhaustive enumeration of the value grammar against the statement's plain-immutable predicate plus explicit-state enumeration of all send/echo/drop/forward histories up to a depth bound on real Connection pairs (1 and 2 hops)",
             "Every grammar value (incl. every subclass / container / callable / module kind and tuples mixing values and references) is sent and classified; references are echoed (must be the original), "
             "re-sent while alive (must be the same proxy) and mutated through; all histories up to depth 3 (quick) / 4 (thorough) over {send sync/async/in tuple/twice, collect, echo, drop, forward over a second hop} "
-            "for built-in-class and user-class objects are replayed with an identity oracle after every step; every ordered pair of 35 representative values on one connection in four contexts (alone, beside a reference, as a result, as a result beside a reference): the by-value/by-reference decision must not depend on history; obtain/deliver copies are equal but independent.",
+            "for built-in-class and user-class objects are replayed with an identity oracle after every step; every ordered pair of 35 representative values on one connection in four contexts (alone, beside a reference, as a result, as a result beside a reference): the by-value/by-reference decision must not depend on history; obtain/deliver copies (of proxies and of tuples holding references) are equal but independent.",
             "deterministic default schedule (delivery races are C10's subject); bounded history depth; generator/memoryview left out of part V",
             "E1+E3+E5", "DESIGN.md#c03"),
     "C05": ("fault_enumeration",
-            "deviation-bounded exhaustive enumeration of transport answers (short reads/writes, timeouts, EAGAIN) and enumeration of EOF / hard errors at every byte offset, on the real Channel + SocketStream/PipeStream over scripted endpoints",
+            "deviation-bounded exhaustive enumeration of transport answers (short reads/writes, timeouts, EAGAIN on reads and on writes) and enumeration of EOF / hard errors at every byte offset, on the real Channel + SocketStream/PipeStream over scripted endpoints",
             "For every packet-size class (0 .. 200000 around the compression threshold and the I/O chunk size), content kind, sender/receiver compression setting and short packet sequences: every execution with <= 2 (quick) / 3 (thorough) "
             "non-default transport answers at every call index, and a cut (EOF, ECONNRESET, EPIPE, EBADF, EIO) at every byte offset on the read side and after every partial count on the write side.",
             "reliable byte FIFO between the endpoints (sender/receiver interleaving only changes availability, which is what is enumerated); at most two consecutive transient errors per call",
             "E4", "DESIGN.md#c05"),
     "C11": ("fault_enumeration",
             "one transport fault per run at every enumerated byte offset / direction / side / error kind over a family of workloads on real Connections + SocketStreams over simulated sockets, plus schedule exploration of close() racing close()",
-            "8 workloads (sync, async, nested callbacks, references both ways, client close, server close, two client threads without time-outs with one parked behind the other, background serving thread); "
+            "10 workloads (sync, async, nested callbacks, references both ways, client close, server close, two client threads without time-outs with one parked behind the other, background serving thread, close() with a before_closed hook that talks to the peer, and one whose hook raises); "
             "faults: read side EOF/ECONNRESET after exactly N bytes, write side EPIPE/ECONNRESET/EBADF after N bytes, N over every byte (thorough) or all header bytes, frame edges and every 29th body byte (quick); "
-            "oracle after one settle step: both sides closed, disconnect hooks exactly once, tables released, second close harmless, every request ended with its value / EOFError / own time-out, no thread left blocked.",
+            "oracle after one settle step: both sides closed, disconnect hooks exactly once, tables released, second close harmless, every request ended with its value / EOFError / own time-out, no thread left blocked; between its own operations the client never reports closed before its hook has run and its objects are released. Thorough adds the end of stream arriving while a second thread is on its way to park (3 threads, preemption bound 1).",
             "lenient reading of 'becomes closed' (after one further serve(0)); one fault per run; SimOS socket semantics (conformance-tested against the kernel in selftest)",
             "E1+E4", "DESIGN.md#c11"),
     "C06": ("exploration",
             "exhaustive enumeration of the attribute-policy decision space (128 switch settings x prefixes x name classes x object shapes x operations) as real requests from a raw peer, judged by an independent reference policy; explicit enumeration of connection open/close histories for isolation",
             "Every combination of the seven switches, three prefixes, eight text and six non-text names, four object shapes and get/set/del/call plus the comparison, context-exit and old-slicing routes is sent to a real Connection; "
             "which attribute was touched is read from sentinels and __dict__ deltas. Objects with own hooks, restricted() views and a Service are run under all 128 settings. All open/close histories of <= 3 connections "
-            "(default, classic, custom) probe every live connection after every step and compare DEFAULT_CONFIG with a snapshot.",
+            "(default, classic, custom, and classic / custom built from ONE caller-owned dict object) probe every live connection after every step and compare DEFAULT_CONFIG and the caller's dict with snapshots.",
             "reference policy written from the statement; both targets accepted where name and twin both qualify; bytes names may be refused or decoded",
             "E5", "DESIGN.md#c06"),
     "C07": ("model_checking",
             "explicit-state BFS over hostile message histories sent by a reference-codec raw peer (with refuse / ignore / adaptive strategies for nested conversations) to a real default-configuration Connection, with canary, policy, table-membership, pickle, import and state monitors after every message",
             "Per reachable state the whole alphabet is applied: every handler x every id in the peer's pool (harvested, stale, never sent, lent on another connection, forged) x 25 sensitive names x labels 3/4, attribute names sent as forged references "
-            "answered adaptively, malformed requests, non-request kinds with arbitrary sequence numbers, 26 crafted exception payloads; histories to depth 3 (quick) / 4 (thorough), states de-duplicated by (ended, table by role, pool roles, proxy cache); hidden-state pass: every ANSWERED request followed by every message sharing its name or target id.",
+            "answered adaptively, malformed requests, non-request kinds with arbitrary sequence numbers, 26 crafted exception payloads; histories to depth 3 (quick) / 4 (thorough), states de-duplicated by (ended, table by role, pool roles, proxy cache); hidden-state pass: every ANSWERED request followed by every message sharing its name or target id; references of the peer's own whose type name points into modules the victim has not imported.",
             "dedicated-handler special methods (__dir__, __hash__, __repr__, __str__, __call__, iteration, __instancecheck__) are not canaries; alphabet is a structured menu, not all frames",
             "E3+E5", "DESIGN.md#c07"),
     "C09": ("exploration",
@@ -112,12 +112,12 @@ CHECKS = {
             "E5", "DESIGN.md#c09"),
     "C20": ("exploration",
             "exhaustive enumeration of small directory trees x file sizes around chunk multiples x chunk sizes x filters x direction over a real classic connection pair on the real filesystem, oracle = filtered recursive byte comparison",
-            "All tree shapes of depth <= 2 and fan-out <= 2 with files and empty directories at every position, sizes {0,1,c-1,c,c+1,2c,2c+1}, chunk sizes {1,2,3,7,64000}, five filters, upload and download, single-file and directory roots.",
+            "All tree shapes of depth <= 2 and fan-out <= 2 with files and empty directories at every position, sizes {0,1,c-1,c,c+1,2c,2c+1}, chunk sizes {1,2,3,7,64000}, five filters, upload and download, single-file and directory roots; file contents pattern / zeros / zero tail / newline traps; transfers onto an existing destination whose files were longer; the same source transferred twice in one process.",
             "deterministic default schedule; filters see base names at every level; per-run temp directory removed at exit",
             "E1+E3", "DESIGN.md#c20"),
     "C18": ("model_checking",
             "explicit-state BFS over register/unregister/query/clock histories replayed on the real UDP registry main loop (simulated UDP layer, virtual clock) against a reference dict model and notification log; exhaustive malformed-datagram menu; TCP registry scenarios on simulated sockets under the scheduler",
-            "All histories to depth 5 (quick) / 7 (thorough) over 2 hosts x 2 ports x 2 alias sets, 4 query names and clock advances of T/2 and T+1, de-duplicated by (registrations with relative ages, log-implied membership); "
+            "All histories to depth 6 (quick) / 8 (thorough) over 2 hosts x 2 ports x 3 alias sets (two overlapping case-insensitively, one disjoint), 5 query names and clock advances of T/2, 3T/4 and T+1, de-duplicated by (registrations with relative ages, stale ones merged; log-implied membership); a removal notification never names a live member; "
             "every malformed datagram (grammar values in each field, all 1-byte and a grid of 2-byte strings, all truncations, odd command names) followed by a valid query; all arrival orders of silent / partial / garbage / well-behaved TCP clients.",
             "expiry notifications are compared for consistency (pruning is lazy, at the next query); ties in refresh time in any order",
             "E3+E4+E5", "DESIGN.md#c18"),
@@ -125,19 +125,19 @@ CHECKS = {
             "explicit-state BFS over client/server event histories on the real threaded, thread-pool, one-shot and forking servers running on a simulated socket layer under the controlled scheduler, with descriptor/table/hook/thread accounting after every event; schedule exploration of connect racing close",
             "All histories up to the depth bound over connect / call / graceful close / abrupt close by <= 3 clients and server.close() (twice) at any point, over TCP and unix sockets, each driven to quiescence; "
             "after close every client sees EOFError promptly, hooks ran once, no descriptor, table entry or server thread is left; a connect racing close() is explored over schedules with <= 2 (quick) / 3 (thorough) preemptions at system-call granularity; "
-            "a client leaving (close / drop / reset) racing close(), and a client leaving while a newcomer receives its recycled descriptor number (close / reset, gated or free, 1-2 pool workers), are explored over all schedules with <= 2 (quick) / 3 (thorough) deviations from the default inside the scenario's window at line granularity in the drop/close paths.",
+            "a client leaving (close / drop / reset) racing close(), and a client leaving while a newcomer receives its recycled descriptor number (close / reset, gated or free, 1-2 pool workers), and a client that connects and is gone at once (drop / reset, free or gated on the server's registration), are explored over all schedules with <= 2 (quick) / 3 (thorough) deviations from the default inside the scenario's window at line granularity in the accept/drop/close paths; after close() the server's side must be clean while the remaining clients stay idle.",
             "SimOS models loopback sockets/poll/queue and fork/waitpid/SIGCHLD with per-process descriptor tables at the level rpyc uses them (kernel-conformance selftest against the real kernel, 45 observations); the forking server is explored on the emulated fork (children are logical threads with their own descriptor table; memory is not copied, which is sound here because a child only touches its own connection) and its close() is a recorded known finding (cannot reach the children)",
             "E1+E3+E4", "DESIGN.md#c17"),
     "C16": ("model_checking",
             "enumeration of hostile client scripts x server kinds x authentication x good-client counts on the real threaded, thread-pool and forking servers over a simulated socket layer, plus exhaustive single-deviation schedule exploration (system-call and line granularity in the connection set-up code)",
-            "Every hostile script (malformed/garbage/absurd/corrupt-zlib packets, a valid request cut at every byte offset, disconnects, failed and stalled authentication, stalls, bursts) is played against ThreadedServer, ThreadPoolServer and ForkingServer with and without an authenticator while 1-2 good clients work; "
-            "oracle: good clients' results, a NEW client is served afterwards, per-connection service instance/state/references/credentials, identifiers of one connection refused on another. All schedules with one deviation from the default are explored for representative scripts and for two clients authenticating concurrently.",
+            "Every hostile script (malformed/garbage/absurd/corrupt-zlib packets, a valid request cut at every byte offset, disconnects and resets, failed and stalled authentication, stalls, bursts, a conversation in which the hostile client forges a reference to the good clients' class and lies about it) is played against ThreadedServer, ThreadPoolServer and ForkingServer with and without an authenticator while 1-2 good clients work; "
+            "oracle: good clients' results (echo, stored state, a lent reference, a class of their own called by the server), a NEW client is served afterwards, per-connection service instance/state/references/credentials, identifiers of one connection refused on another. All schedules with one deviation from the default are explored for representative scripts and for two clients authenticating concurrently.",
             "hostile bytes are a structured alphabet; pool sized above the number of never-finishing clients; the forking server runs on the emulated fork (default schedule only); recorded known findings: pool + client silent during authentication, pool drops a newcomer whose descriptor number was just recycled",
             "E1+E4+E5", "DESIGN.md#c16"),
     "C02": ("model_checking",
             "explicit-state BFS over canonical target states x a ~170-operation alphabet per target kind, each (state, operation) applied through a proxy on a real connection pair and directly on a twin; exhaustive buffered-iteration parameter sweep",
             "9 target kinds (list, dict, set, bytearray, deque, list-iterator, generator, binary file, user class with operators/properties/context manager) x 3 configuration modes; states reachable within depth 2 (quick) / 3 (thorough) with containers <= 3 items; "
-            "result (value+type or reference role), exception class and canonical post-state must agree with the twin. buffiter: all 1872 (length, chunk, factor, max_chunk) combinations and factor < 1.",
+            "result (value+type or reference role), exception class and canonical post-state must agree with the twin. buffiter: all 1872 (length, chunk, factor, max_chunk) combinations and factor < 1. Same-live-proxy pass: observer / any operation / the same observer again on ONE proxy, every step compared with the twin (a proxy must not answer from memory).",
             "operands are immutable values or target-side objects; restricted modes skip operations the policy itself refuses; `|` on proxies of built-in types without __or__ is a recorded known finding (4 target kinds)",
             "E1+E3", "DESIGN.md#c02"),
 }
